@@ -1251,8 +1251,10 @@ func (s *Server) handleInputCommand(client *Client, msg *Message) error {
 		}
 	case "get", "keys", "scan", "nearby", "within", "intersects", "hooks",
 		"chans", "search", "ttl", "bounds", "server", "info", "type", "jget",
-		"evalro", "evalrosha", "role", "fget", "exists", "fexists":
-		// read operations
+		"evalro", "evalrosha", "role", "fget", "exists", "fexists",
+		"test", "stats":
+		// read operations (TEST reads objects through GET areas, STATS reads
+		// collections: they need the shared lock and the follower gate too)
 		s.mu.RLock()
 		defer s.mu.RUnlock()
 		// fallthrough to perform a "catching up to leader" check
